@@ -544,5 +544,5 @@ package git
 //@ property C13: smartJoin NewRepositoryFromPath
 
 //@ property C14: (*Repository).ConfigStringDefault (*Repository).ConfigBoolDefault (*Repository).ConfigIntDefault
-//@ property C10: (*Repository).ResolveObject ParseBatchHeader
+//@ property C10: (*Repository).ResolveObject
 //@ property C01: (*Repository).ResolveObject ParseBatchHeader ParseReference
